@@ -1,10 +1,11 @@
 (* C15 - source positions in the AST and in parse errors are accurate.
    Only statements closed by [exact]; proofs are in Pos/SpanProofs.v, Pos/ErrRangeProofs.v, Pos/TreeProofs.v.
-   Models: Pos/Span.v (pest_span_to_ast_span, pest_span_to_position, position_from_ast_span, pest's line_col),
+   Models (of /repo after the fixes 2fbd55d, 837f856, 781e531):
+   Pos/Span.v (pest_span_to_ast_span, pest_span_to_position, position_from_ast_span, pest's line_col),
    Pos/ErrRange.v (convert_pest_error, compute_error_range, scan_token_end, scan_token_start),
-   Pos/Tree.v (pest's Start/End token queue and its reading as a pair tree). *)
+   Pos/Tree.v (pest's Start/End token queue, its reading as a pair tree, a recursive-descent matcher, typename). *)
 From Cddl Require Import Base.Bytes Base.Utf8 Pos.Span Pos.ErrRange Pos.Tree
-  Pos.SpanProofs Pos.ErrRangeProofs Pos.BoundaryProofs Pos.FixedProofs Pos.TreeProofs.
+  Pos.SpanProofs Pos.BoundaryProofs Pos.ErrRangeProofs Pos.TreeProofs.
 Open Scope N_scope.
 
 (* ---------- AST spans ---------- *)
@@ -38,7 +39,8 @@ Proof. exact err_range_non_inverted. Qed.
 
 Theorem C15_err_range_in_bounds : forall bs index, index <= lenN bs ->
   fst (compute_error_range index bs) <= snd (compute_error_range index bs)
-  /\ snd (compute_error_range index bs) <= lenN bs.
+  /\ snd (compute_error_range index bs) <= lenN bs
+  /\ fst (compute_error_range index bs) <= index.
 Proof. exact err_range_in_bounds. Qed.
 
 Theorem C15_err_linecol_of_index : forall bs index,
@@ -49,59 +51,13 @@ Theorem C15_err_linecol_of_index : forall bs index,
   /\ p_column p = 1 + nchars (line_tail (firstnN (p_index p) bs)).
 Proof. exact err_linecol_of_index. Qed.
 
-(* FULL STATEMENT err_range_on_char_boundary (false of the code, refuted below):
-     forall bs index, utf8_valid bs = true -> index <= lenN bs -> char_boundary bs index = true ->
-       char_boundary bs (fst (compute_error_range index bs)) = true
-       /\ char_boundary bs (snd (compute_error_range index bs)) = true.                          *)
-(* partial, strongest form: the full statement holds outside exactly the two classified defect classes
-   (kf_range_end_in_char: the token scanned forward is a single non-ASCII lead byte;
-    kf_range_start_in_char: the backward scan stopped on the last byte of a multi-byte character) *)
-Theorem C15_err_range_on_char_boundary_partial : forall bs index,
+(* the reported range (and with it the index) lies on character boundaries: full statement, every valid UTF-8
+   text, every boundary offset.  (Refuted for the code before 2fbd55d: `a = é` gave (4,5), `a = ; é\n` (7,8).) *)
+Theorem C15_err_range_on_char_boundary : forall bs index,
   utf8_valid bs = true -> index <= lenN bs -> char_boundary bs index = true ->
-  kf_range_end_in_char bs index = false -> kf_range_start_in_char bs index = false ->
   char_boundary bs (fst (compute_error_range index bs)) = true
   /\ char_boundary bs (snd (compute_error_range index bs)) = true.
-Proof. exact err_range_on_char_boundary_unless_classified. Qed.
-
-(* in particular for ASCII-only documents *)
-Theorem C15_err_range_on_char_boundary_ascii : forall bs index,
-  all_ascii bs = true -> index <= lenN bs ->
-  char_boundary bs (fst (compute_error_range index bs)) = true
-  /\ char_boundary bs (snd (compute_error_range index bs)) = true.
-Proof. exact err_range_on_char_boundary_partial. Qed.
-
-(* known findings: `a = é` at offset 4 gives (4,5), ending inside the character;
-   `a = ; é\n` at offset 9 gives index 7 and range (7,8), starting inside it *)
-Theorem C15_err_range_on_char_boundary_refuted :
-  (exists bs index, utf8_valid bs = true /\ index <= lenN bs /\ char_boundary bs index = true
-     /\ kf_range_end_in_char bs index = true
-     /\ char_boundary bs (snd (compute_error_range index bs)) = false)
-  /\ (exists bs index, utf8_valid bs = true /\ index <= lenN bs /\ char_boundary bs index = true
-     /\ kf_range_start_in_char bs index = true
-     /\ char_boundary bs (fst (compute_error_range index bs)) = false
-     /\ char_boundary bs (p_index (convert_pest_error bs index)) = false).
-Proof. exact err_range_on_char_boundary_refuted. Qed.
-
-(* ---------- the proposed repair (design.d/C15-fix-error-range-char-boundary.patch) ---------- *)
-(* of the repaired scan_token_end / scan_token_start the FULL statement holds *)
-Theorem C15_fixed_range_on_char_boundary : forall bs index,
-  utf8_valid bs = true -> index <= lenN bs -> char_boundary bs index = true ->
-  char_boundary bs (fst (compute_error_range_fixed index bs)) = true
-  /\ char_boundary bs (snd (compute_error_range_fixed index bs)) = true.
-Proof. exact fixed_range_on_char_boundary. Qed.
-
-Theorem C15_fixed_range_in_bounds : forall bs index, index <= lenN bs ->
-  fst (compute_error_range_fixed index bs) <= snd (compute_error_range_fixed index bs)
-  /\ snd (compute_error_range_fixed index bs) <= lenN bs
-  /\ fst (compute_error_range_fixed index bs) <= index.
-Proof. exact fixed_range_in_bounds. Qed.
-
-(* and the repair changes the reported range only in the two classified classes *)
-Theorem C15_fixed_differs_only_on_classified : forall bs index,
-  utf8_valid bs = true -> index <= lenN bs -> char_boundary bs index = true ->
-  kf_range_end_in_char bs index = false -> kf_range_start_in_char bs index = false ->
-  compute_error_range_fixed index bs = compute_error_range index bs.
-Proof. exact fixed_differs_only_on_classified. Qed.
+Proof. exact err_range_on_char_boundary. Qed.
 
 (* ---------- pair trees ---------- *)
 (* a token queue whose positions never decrease and stay inside the text reads as a forest with nested spans,
@@ -122,14 +78,16 @@ Theorem C15_run_tree_wf : forall f g e s s' p' evs,
   exists ts, tree_of_events evs = Some ts /\ flatten_forest ts = evs /\ forest_wf 0 (lenN s) ts.
 Proof. exact run_tree_wf. Qed.
 
-(* known finding: the non-atomic rule typename = { socket_type? ~ id } lets pest skip blanks after the socket,
-   so on `$ x` the typename pair (the identifier's span) is (0,3) while socket_type is (0,1) and id is (2,3) *)
-Theorem C15_ident_span_exact_refuted :
-  run 20 (fun _ => PEmpty) typename_rule [36; 32; 120] 0
-  = Some (Some ([], 3, [EStart 0; EStart 0; EEnd 1; EStart 2; EEnd 3; EEnd 3]))
-  /\ tree_of_events [EStart 0; EStart 0; EEnd 1; EStart 2; EEnd 3; EEnd 3]
-     = Some [Node 0 3 [Node 0 1 []; Node 2 3 []]].
-Proof. exact typename_span_covers_blank. Qed.
+(* identifier spans are exact: the compound-atomic rule typename = ${ socket_type? ~ id } (id atomic, i.e. without
+   inner pairs) yields a pair that is tiled by its children - `$` then the id, or the id alone - with nothing
+   between the socket and the name and nothing after the name.
+   (Before 837f856 the rule was non-atomic and `$ x` gave the typename span (0,3).) *)
+Theorem C15_ident_span_exact : forall f g idbody s pos s' p' evs,
+  no_rule idbody = true ->
+  run f g (typename_of idbody) s pos = Some (Some (s', p', evs)) ->
+  evs = [EStart pos; EStart pos; EEnd (pos + 1); EStart (pos + 1); EEnd p'; EEnd p']
+  \/ evs = [EStart pos; EStart pos; EEnd p'; EEnd p'].
+Proof. exact typename_span_exact. Qed.
 
 (* ---------- non-vacuity ---------- *)
 (* "a\r\nb\r\néc": the span (8,9) of `c` is on line 3, column 2 (é is one character of two bytes) *)
@@ -141,18 +99,19 @@ Proof. vm_compute. auto. Qed.
 Example C15_example_error :
   convert_pest_error [97; 32; 61; 32; 91; 13; 10; 32; 32; 49; 44; 13; 10] 13 = mkPos 2 4 (10, 11) 10.
 Proof. vm_compute. reflexivity. Qed.
-(* "a = x ; é\r\n /" with pest failing at the end: hypotheses of the partial boundary theorem hold, range (13,14) *)
+(* the former witnesses: `a = é` at 4 now gives (4,6); `a = ; é\n` at 9 gives index 6, column 7, range (6,8) *)
 Example C15_example_boundary :
-  let bs := [97; 32; 61; 32; 120; 32; 59; 32; 195; 169; 13; 10; 32; 47] in
-  utf8_valid bs = true /\ char_boundary bs 14 = true
-  /\ kf_range_end_in_char bs 14 = false /\ kf_range_start_in_char bs 14 = false
-  /\ compute_error_range 14 bs = (13, 14).
-Proof. vm_compute. auto. Qed.
-Example C15_example_fixed :
-  compute_error_range_fixed 4 [97; 32; 61; 32; 195; 169] = (4, 6)
-  /\ convert_pest_error_fixed [97; 32; 61; 32; 59; 32; 195; 169; 10] 9 = mkPos 1 7 (6, 8) 6.
+  utf8_valid [97; 32; 61; 32; 59; 32; 195; 169; 10] = true
+  /\ compute_error_range 4 [97; 32; 61; 32; 195; 169] = (4, 6)
+  /\ convert_pest_error [97; 32; 61; 32; 59; 32; 195; 169; 10] 9 = mkPos 1 7 (6, 8) 6.
 Proof. vm_compute. auto. Qed.
 Example C15_example_tree :
   events_wfb 9 [EStart 0; EStart 0; EEnd 1; EStart 4; EStart 4; EEnd 7; EEnd 9; EEnd 9] = true
   /\ events_wfb 9 [EStart 0; EStart 4; EEnd 9; EStart 8; EEnd 9; EEnd 9] = false.
+Proof. vm_compute. auto. Qed.
+(* `$x` is a typename with span (0,2); `$ x` is not a typename *)
+Example C15_example_typename :
+  run 20 (fun _ => PEmpty) (typename_of lower_id) [36; 120] 0
+  = Some (Some ([], 2, [EStart 0; EStart 0; EEnd 1; EStart 1; EEnd 2; EEnd 2]))
+  /\ run 20 (fun _ => PEmpty) (typename_of lower_id) [36; 32; 120] 0 = Some None.
 Proof. vm_compute. auto. Qed.
